@@ -14,8 +14,12 @@ def default_formula(fn):
     for node in ast.walk(fn):
         if isinstance(node, ast.If) and ast.unparse(node.test) == 'n_constraints is None':
             src = [ast.unparse(s) for s in node.body]
-            if len(src) != 2 or src[0] != 'num_classes = len(np.unique(y))' or node.orelse:
+            # which labels are counted as classes: the known ones only (`y[y >= 0]`), or every distinct value of `y`
+            # (negative = unlabeled markers included — a defect the documented table rejects)
+            counted = {'num_classes = len(np.unique(y[y >= 0]))': 'known', 'num_classes = len(np.unique(y))': 'all'}
+            if len(src) != 2 or src[0] not in counted or node.orelse:
                 raise Unsupported(f'n_constraints default: unexpected body {src}')
+            classes_of = counted[src[0]]
             v = node.body[1]
             if not (isinstance(v, ast.Assign) and ast.unparse(v.targets[0]) == 'n_constraints'):
                 raise Unsupported('n_constraints default: not an assignment to n_constraints')
@@ -23,9 +27,9 @@ def default_formula(fn):
             if (isinstance(e, ast.BinOp) and isinstance(e.op, ast.Mult) and isinstance(e.left, ast.Constant) and
                     isinstance(e.right, ast.BinOp) and isinstance(e.right.op, ast.Pow) and
                     ast.unparse(e.right.left) == 'num_classes' and isinstance(e.right.right, ast.Constant)):
-                return int(e.left.value), int(e.right.right.value)
+                return int(e.left.value), int(e.right.right.value), classes_of
             raise Unsupported(f'n_constraints default: unexpected formula {ast.unparse(e)}')
-    return 0, 0
+    return 0, 0, ''
 
 
 def wiring_row(ix, cls):
@@ -67,7 +71,7 @@ def wiring_row(ix, cls):
     if same_length not in ('True', 'False'):
         raise Unsupported(f'{cls}.fit: same_length is not a literal')
     args += [f'{k}={v}' for k, v in sorted(kws.items())]
-    coef, pw = default_formula(fn)
+    coef, pw, classes_of = default_formula(fn)
     # the statement that returns: base fit and how the tuples are formed
     ret = [n for n in ast.walk(fn) if isinstance(n, ast.Return)]
     if len(ret) != 1 or not isinstance(ret[0].value, ast.Call):
@@ -95,7 +99,7 @@ def wiring_row(ix, cls):
             assigned.append(ast.unparse(node.target))
     base_kwargs = [f'{k.arg}={ast.unparse(k.value)}' for k in ret[0].value.keywords]
     return {'assigned': sorted(set(assigned)), 'base_kwargs': base_kwargs, 'cls': cls, 'generator': gen.func.attr, 'labels_arg': labels_arg, 'prepared': bool(prepared), 'args': args,
-            'same_length': same_length == 'True', 'seed': seeded or '', 'default_coef': coef, 'default_pow': pw,
+            'same_length': same_length == 'True', 'seed': seeded or '', 'default_coef': coef, 'default_pow': pw, 'classes_of': classes_of,
             'former': former, 'base_call': base, 'base_args': [ast.unparse(a) for a in ret[0].value.args]}
 
 
